@@ -7,6 +7,8 @@ import (
 
 	"github.com/atlassian/escalator/pkg/cloudprovider"
 	"github.com/atlassian/escalator/pkg/controller"
+	v1 "k8s.io/api/core/v1"
+	"k8s.io/apimachinery/pkg/api/resource"
 
 	"verif/h"
 	"verif/sim"
@@ -143,7 +145,76 @@ func C12Scenarios(tier string) []*h.Scenario {
 		}
 		return s
 	}
+	// b has no nodes and has never seen one: its scale-up from zero must not depend on a's nodes
+	empty := func(name string, order []string) *h.Scenario {
+		s := mk(name, order)
+		for i := range s.Groups {
+			if s.Groups[i].Opts.Name == "b" {
+				s.Groups[i].Opts.MinNodes = 0 // a group may only sit at zero nodes with min_nodes 0
+			}
+		}
+		inner := s.Init
+		groups := s.Groups
+		s.Init = func(hh *h.Hist) {
+			inner(hh)
+			for i, g := range groups {
+				if g.Opts.Name != "b" {
+					continue
+				}
+				// remove b's nodes and instances, leave pending pods selecting b
+				a := hh.W.FindASG(g.ASG.Name)
+				for _, in := range a.Instances {
+					delete(hh.W.EC2, in.ID)
+				}
+				a.Instances, a.Desired = nil, 0
+				kept := hh.W.Nodes[:0:0]
+				for _, n := range hh.W.Nodes {
+					if n.Labels[g.Opts.LabelKey] != g.Opts.LabelValue {
+						kept = append(kept, n)
+					}
+				}
+				hh.W.Nodes = kept
+				pk := hh.W.Pods[:0:0]
+				for _, p := range hh.W.Pods {
+					if !h.PodInGroup(p, &groups[i]) {
+						pk = append(pk, p)
+					}
+				}
+				hh.W.Pods = pk
+				hh.W.AddPod(podOn(g, "", 2500))
+			}
+		}
+		ga := s.Groups[0]
+		for _, g := range s.Groups {
+			if g.Opts.Name == "a" {
+				ga = g
+			}
+		}
+		innerEv := s.Events
+		s.Events = func(hh *h.Hist, slot int) []h.Event {
+			ev := innerEv(hh, slot)
+			ev = append(ev, h.Event{Label: "resize-first-node(a,4000m)", Apply: func(hh *h.Hist) {
+				for _, n := range groupNodes(hh, ga, 1) {
+					n.Status.Allocatable = v1.ResourceList{
+						v1.ResourceCPU:    *resource.NewMilliQuantity(4000, resource.DecimalSI),
+						v1.ResourceMemory: *resource.NewQuantity(16<<30, resource.BinarySI),
+					}
+				}
+			}})
+			for _, cpu := range []int64{4000, 250} {
+				c := cpu
+				ev = append(ev, h.Event{Label: fmt.Sprintf("register-node(a,%dm)", c), Apply: func(hh *h.Hist) {
+					if a := hh.W.FindASG(ga.ASG.Name); a != nil && a.Desired < a.Max {
+						hh.W.AddNode(a, sim.NodeOpt{CPUMilli: c, MemBytes: 1 << 30})
+					}
+				}})
+			}
+			return ev
+		}
+		return s
+	}
 	return []*h.Scenario{
+		empty("c12.a-emptyb", []string{"a", "b"}),
 		mk("c12.a-b", []string{"a", "b"}),
 		mk("c12.b-a", []string{"b", "a"}),
 		mk("c12.a-default-b", []string{"a", "default", "b"}),
@@ -169,6 +240,6 @@ func init() {
 		},
 		Nontrivial:  seenKeys,
 		Assumptions: append([]string{"group a scales with SetDesiredCapacity (zero virtual time); a fleet attach in a takes 1-3 virtual seconds, which legitimately moves b's reaper clock and is not interference"}, commonAssumptions...),
-		Alphabet:    []string{"pod-start/finish(a.i)", "cordon(a.i)", "force-taint(a.i)", "ext-taint(a.i, now-5q)", "burst(a)", "clear-pods(a)", "fail at any k8s/AWS call or lister while a is processed"},
+		Alphabet:    []string{"pod-start/finish(a.i)", "cordon(a.i)", "force-taint(a.i)", "ext-taint(a.i, now-5q)", "burst(a)", "clear-pods(a)", "register-node(a, odd size)", "resize-first-node(a)", "fail at any k8s/AWS call or lister while a is processed"},
 	})
 }
